@@ -58,7 +58,7 @@ func init() {
 		},
 		Cases: func(tier string, seed uint64) int {
 			if tier == "thorough" {
-				return 10000000
+				return 40000000
 			}
 			return 300000
 		},
